@@ -27,7 +27,8 @@ Record gcodec := mkgcodec {
   gc_Size : gval -> bytes -> Z;
   gc_Append : nat -> bytes -> gval -> bytes -> res bytes;
   gc_Read : nat -> bytes -> gval -> Z -> res (gval * Z);
-  gc_WireType : Z }.
+  gc_WireType : Z;
+  gc_New : gval }.
 
 Definition go_itf {A} (site : string) (x : option A) : res A :=
   match x with Some a => Ok a | None => Panic site end.
@@ -39,6 +40,15 @@ Definition go_field_get (v : gval) (off : N) : gval :=
 Definition go_field_set (v : gval) (off : N) (x : gval) : gval :=
   Codec.VStruct (Codec.set_nth (N.to_nat off) x (Codec.struct_fields v)).
 Definition go_load_ptr (v : gval) : gval := v.
+
+(** a pointer slot (the field of type *T that a PointerWrapper is handed the
+    address of) holds nil or the address of a T: the pointer stored there is an
+    [option] of the value it points to.  Storing a pointer overwrites the slot;
+    a codec that is handed a loaded pointer works on the pointee (a nil pointer
+    there is a [Panic], conservatively: Go would fault only at the first use). *)
+Definition go_load_opt (v : gval) : option gval :=
+  match v with Codec.VPtr o => o | _ => None end.
+Definition go_store_opt (v : gval) (x : gval) : gval := Codec.VPtr (Some x).
 
 (** x[a:b] : Go allows b up to cap(x); as for [go_slice_to] the model is
     stricter and panics unless 0 <= a <= b <= len(x) *)
@@ -71,3 +81,21 @@ Definition go_time_UnixMicro (usec : Z) : gtime :=
 
 (** a package-level variable initialised by a call: its value once the program runs *)
 Definition go_init {A} (d : A) (r : res A) : A := match r with Ok a => a | _ => d end.
+
+(** ** the method table of a model codec
+    What the translated code is compared with: a field or element codec that
+    IS the model's codec [c].  [lift_dec] carries the model's outcome over to
+    the types the translated Read methods use. *)
+Definition lift_dec (r : res (Codec.val * N)) : res (gval * Z) :=
+  match r with
+  | Ok (v, n) => Ok (v, Z.of_N n)
+  | Err => Err | Panic s => Panic s | Hang s => Hang s | Blowup s => Blowup s
+  end.
+
+Definition gcodec_of (c : Codec.codec) : gcodec :=
+  mkgcodec (Codec.omit c)
+           (fun v tag => Z.of_N (Codec.size c v tag))
+           (fun _ data v tag => Ok (data ++ Codec.enc c v tag))
+           (fun _ data v wt => lift_dec (Codec.dec c data (Z.to_N wt) v))
+           (Z.of_N (Codec.wire c))
+           (Codec.zero c).
